@@ -19,7 +19,7 @@ from concurrent.futures import ThreadPoolExecutor
 import common
 import t_funccompile
 
-THEOREMS = ["Sympler.FuncCompile.C11_name_format", "Sympler.FuncCompile.C11_gen_order", "Sympler.FuncCompile.C11_isolation", "Sympler.FuncCompile.C11_progress",
+THEOREMS = ["Sympler.FuncCompile.C11_name_format", "Sympler.FuncCompile.C11_counter_order", "Sympler.FuncCompile.C11_gen_order", "Sympler.FuncCompile.C11_isolation", "Sympler.FuncCompile.C11_progress",
             "Sympler.FuncCompile.C11_progress_all", "Sympler.FuncCompile.C11_progress_exists", "Sympler.FuncCompile.C11_coarse_refines",
             "Sympler.FuncCompile.C11_race_witness", "Sympler.FuncCompile.C11_race_witness_error", "Sympler.FuncCompile.C11_race_witness_coarse"]
 MODULES = ["Sympler.FuncCompile", "Sympler.FuncCompileLemmas", "Sympler.Gen.FuncCompileGen", "Props.C11"]
@@ -260,9 +260,9 @@ def run(ctx):
         gen = t_funccompile.generate(common.REPO)
         common.write_if_changed(os.path.join(common.LEAN, "Sympler/Gen/FuncCompileGen.lean"), gen)
         uses_pid = "nameUsesPid : Bool := true" in gen
-        ctx.oblige("translator t_funccompile (naming flag, step order)", True, gen.split("def stepOrder")[1][:120])
+        ctx.oblige("translator t_funccompile (naming flag, separator, name-before-increment, step order)", True, gen.split("def stepOrder")[1][:120])
     except Exception as ex:
-        ctx.oblige("translator t_funccompile (naming flag, step order)", False, repr(ex))
+        ctx.oblige("translator t_funccompile (naming flag, separator, name-before-increment, step order)", False, repr(ex))
     lean_ok = common.lean_obligations(ctx, ["Sympler.FuncCompile", "Props.C11", "symdrv"], ["Props.C11"], THEOREMS, MODULES)
     okh, o, binp = common.build_harness("h_compiler_proc")
     ctx.oblige("harness h_compiler_proc builds", okh, o[-300:])
